@@ -109,9 +109,10 @@ def collectRangePartial (f : Nat → R α) : (start count : Nat) → List α
     | .ok x => x :: collectRangePartial f (start + 1) count
     | .error _ => []
 
-/-- `_symbol_name_map` as the FIRST call of `get_symbol_by_name` leaves it. When that call raised
-    half-way through `iter_symbols`, the attribute is no longer `None` and holds the names read so
-    far: every later call answers from this partial map without raising. -/
+/-- HISTORICAL (before fix 31a474f in /repo): `_symbol_name_map` as the FIRST call of
+    `get_symbol_by_name` used to leave it when that call raised half-way through `iter_symbols`
+    (later calls answered from the partial map).  The map is now published only when complete, so the
+    driver no longer uses this definition; it is kept as the description of the repaired defect. -/
 def nameMapAfterFirstCall (S : ElfStructs) (env : Env) (data : Bytes) (h : SecHdr) (strOff : Nat) :
     List (Bytes × List Nat) :=
   match numSymbols h with
